@@ -1,7 +1,7 @@
 (* C07/Properties.v — property theorems only.  Model: C07/Model.v (the code after fix commits
    e89b171, 07b228c; with the known finding F-C07a, whose fix 311264d was reverted by 0819a3f). *)
 From Coq Require Import String Lia.
-From RM Require Import C06.Model C06.Proofs C06.Proofs5 C06.Driver C07.Model C07.Proofs C07.Proofs2 C07.Proofs3 C07.Proofs4 C07.Text C07.Proofs5 C07.Walker C07.Proofs6 C07.Proofs7 C07.Proofs11 C07.Proofs13 C07.Proofs8 C07.Proofs9 C07.Proofs10 C07.Proofs12 Gen.C07WinEval C07.Source C07.Proofs14 C07.Proofs15 C07.Proofs16 Gen.C07WinLine C07.Proofs17 C07.Proofs18 C07.WalkerFd C07.Proofs19 C07.Proofs20.
+From RM Require Import C06.Model C06.Proofs C06.Proofs5 C06.Driver C07.Model C07.Proofs C07.Proofs2 C07.Proofs3 C07.Proofs4 C07.Text C07.Proofs5 C07.Walker C07.Proofs6 C07.Proofs7 C07.Proofs11 C07.Proofs13 C07.Proofs8 C07.Proofs9 C07.Proofs10 C07.Proofs12 Gen.C07WinEval C07.Source C07.Proofs14 C07.Proofs15 C07.Proofs16 Gen.C07WinLine C07.Proofs17 C07.Proofs18 C07.WalkerFd C07.Proofs19 C07.Proofs20 C07.Driver C07.Proofs21.
 From RM Require C09.Grammar.
 From RM Require C08.Model C08.Proofs.
 Open Scope Z_scope.
@@ -811,3 +811,21 @@ Proof.
     try (exists 4; repeat match goal with |- _ /\ _ => split end);
     try exact I; try (vm_compute; reflexivity); try (vm_compute; intro Hc; discriminate Hc).
 Qed.
+
+(* Second pass of round 5.  The correspondence run evaluates every generated case with the hand-written model AND with
+   the model compiled from walker.rs / mod.rs on that run (Driver.run_*7_src: Source.src_walk_frame, and win_walk over
+   the compiled evaluators for whole walks); ocaml/c07/main.ml reports a case on which they differ.  Here: the two
+   instances of each extracted entry point are the same function of the case line, for all inputs — so on the
+   unchanged tree the three-way comparison can only ever differ from the real code, and after an edit of the source
+   the compiled instance follows the code while this theorem (through c07_source_is_model) stops proving. *)
+Theorem c07_driver_source_agrees :
+  (forall lookup gcps hasgc regs membase mem recs names,
+     run_mock7_src lookup gcps hasgc regs membase mem recs names = run_mock7 lookup gcps hasgc regs membase mem recs names) /\
+  (forall ctx valid stackbase stack recs,
+     run_real7_src ctx valid stackbase stack recs = run_real7 ctx valid stackbase stack recs) /\
+  (forall below ctx valid stackbase stack recs,
+     run_frames7_src below ctx valid stackbase stack recs = run_frames7 below ctx valid stackbase stack recs) /\
+  (forall ctx stackbase stack funcs recs,
+     run_walk7_src ctx stackbase stack funcs recs = run_walk7 ctx stackbase stack funcs recs).
+Proof. exact driver_source_agrees. Qed.
+Print Assumptions c07_driver_source_agrees.
